@@ -15,9 +15,12 @@ META = {
                  'hash-array queries: see C13 (Memory::Allocate<char> routed through a size-enumerating wrapper on the CBMC side)'],
 }
 
-def sq(entry, n, asc, timeout=300):
+def sq(entry, n, asc, prop=3, rng=0, timeout=300, backend='sat'):
     b = {'IsLess|IsGreater|IsEqual|ref_cmp': 3, 'Sort': n + 1, 'vf_buf.*': n + 3, 'h_.*': n + 3}
-    return Query('sort/%s/n%d/%s' % (entry[2:], n, 'asc' if asc else 'desc'), 'C15_sort.cpp', entry, {'N': n, 'ASC': asc}, bounds=b,
+    name = 'sort/%s/n%d/%s' % (entry[2:], n, 'asc' if asc else 'desc')
+    if prop != 3: name += '/' + ('ordered' if prop == 1 else 'permutation')
+    if rng: name += '/range%d' % rng
+    return Query(name, 'C15_sort.cpp', entry, {'N': n, 'ASC': asc, 'PROP': prop, 'RANGE': rng}, bounds=b, backend=backend,
                  default_unwind=n + 1, rec_bounds={'Sort': n + 1}, default_rec=n + 1, timeout=timeout, mem_gb=8)
 
 def queries(tier):
@@ -28,5 +31,7 @@ def queries(tier):
         for n in ni: qs.append(sq('h_sort_int', n, asc))
         for n in nk: qs.append(sq('h_sort_key', n, asc))
         for n in ((3,) if tier == 'quick' else (3, 5)): qs.append(sq('h_array_sort', n, asc))
+    for pr in (1, 2):
+        for rg in (0, 3): qs.append(sq('h_sort_int', 5, 1, pr, rg))
     qs += _c13.sort_queries(tier)
     return qs
